@@ -19,13 +19,13 @@ def queries(tier, kfs):
 
     def add(qid, ud, hd, unwind, bounds, timeout=900):
         unwind = max(unwind, 16)
-        if open_kf:
-            qs.append(Query(qid + '.excl', 'router.cpp', 'c05.c', ud, dict(hd, EXCL_DEGENERATE=1), unwind=unwind, bounds=bounds, timeout=timeout))
-            if len([q for q in qs if q.expect == 'finding']) < 2:
-                qs.append(Query(qid + '.kf', 'router.cpp', 'c05.c', ud, hd, unwind=unwind, bounds=bounds, timeout=timeout,
-                                expect='finding', kf=KF, diff=0))
-        else:
-            qs.append(Query(qid, 'router.cpp', 'c05.c', ud, hd, unwind=unwind, bounds=bounds, timeout=timeout))
+        # structural clauses (receiver set, counts, distances, self receivers): binary64, SAT with formula slicing
+        qs.append(Query(qid + '.struct', 'router.cpp', 'c05.c', ud, dict(hd, NO_WEIGHTS=1), unwind=unwind, bounds=bounds, timeout=timeout,
+                        solver='cadical', extra=['--slice-formula']))
+        # known finding (NaN weights): demonstrated by a counter-example that the native replay must place in the class
+        if open_kf and len([q for q in qs if q.expect == 'finding']) < 1 and hd.get('PEXP') == 1 and hd.get('ROUNDS') == 1:
+            qs.append(Query(qid + '.kf', 'router.cpp', 'c05.c', ud, dict(hd, NAN_ONLY=1), unwind=unwind, bounds=bounds, timeout=timeout,
+                            expect='finding', kf=KF, kf_marker='CLASS degenerate-sum', diff=0))
 
     prof = [(3, 0, 0b101, None, 1, 1), (3, 1, 0, None, 1, 1), (4, 0, 0b1001, None, 1, 1), (4, 1, 0b0001, 0b0100, 0, 1), (4, 0, 0b1000, None, 2, 1),
             (3, 1, 0b001, None, 1, 2), (4, 0, 0b1001, None, 0, 2)]
